@@ -160,6 +160,10 @@ def r_C26state(root):
     w.call("register_language", LD("Other", "*.ml", metamodel=w.factory("Other")))
     r = w.call("language_for_file", "x.ml"); r2 = w.call("language_for_file", "x.none")
     rep(is_err(r) and is_err(r2), "language_for_file", "no or several matching languages are an error", "language_for_file with two matching languages %s, with none %s; both documented TextXRegistrationError" % (show(r), show(r2)))
+    # a language whose pattern has a directory part: the whole path given takes part in the match
+    w2 = World(); flows = LD("Flows", "*/flows/*.txt", metamodel=w2.factory("Flows")); w2.call("register_language", flows)
+    r = w2.call("language_for_file", "proj/flows/main.txt"); r2 = w2.call("language_for_file", "proj/other/main.txt"); r3 = w2.call("language_for_file", "*/flows/*.txt")
+    rep(r[0] == "ret" and r[1] is flows and is_err(r2) and r3[0] == "ret" and r3[1] is flows, "language_for_file", "a pattern with a directory part is matched against the path as given", "with a language registered for '*/flows/*.txt': language_for_file('proj/flows/main.txt') %s (documented: that language), ('proj/other/main.txt') %s (documented TextXRegistrationError), the pattern itself %s (documented: that language)" % (show(r), show(r2), show(r3)), props_=("C26", "C30"))
     # ---- registration as the very first use of the registry
     w = World(); mine = LD("MyLang", "*.ml", metamodel=w.factory("MyLang"))
     r0 = w.call("register_language", mine); r1 = w.call("language_description", "entrylang"); r2 = w.call("language_description", "mylang")
